@@ -329,6 +329,6 @@ pub fn run(env: &Env) -> i32 {
         "generated valid operation files (one or several operations, anonymous operation, fragments, optionally fragments imported from a second file) x configuration text drawn from the product mode(3) x defaultExportForOperation x capitalizeOperationNames x seven name suffixes in {default, \"\", custom} x operationResultType x variablesType, written as YAML or JSON. The same text goes to parse_config + OperationTypePrinterOptions::from_config (declaration side, as generate.rs) and to the loader's load_config (runtime side, through the native ABI). Oracle: every value export of the declaration file (named constants, default) is exported under the same name by the loader's module and carries the document whose first definition is the operation/fragment it was declared for. Non-trivial: >= 2 non-default options and the file has both an operation and a fragment.",
     );
     rep.assume("the k-th constant of the declaration file stands for the k-th definition of the resolved document (both printers share one traversal)");
-    rep.campaign("configs", env.cases(4_000, 120_000), (300, 1500), case_fn);
+    rep.campaign("configs", env.cases(15_000, 150_000), (300, 1500), case_fn);
     rep.finish()
 }
